@@ -23,6 +23,9 @@ pub struct SProfile {
     pub name: String,
     pub dur: Vec<i64>,
     pub dist: Vec<i64>,
+    /// `errorCodes` of the routing matrix (empty = none): an entry > 0 marks the pair as unreachable
+    #[serde(default)]
+    pub errors: Vec<i64>,
 }
 
 #[derive(Serialize, Deserialize, Clone, Debug, Default)]
@@ -351,7 +354,13 @@ impl SProblem {
         let matrices = self
             .profiles
             .iter()
-            .map(|p| json!({"profile": p.name, "travelTimes": p.dur, "distances": p.dist}))
+            .map(|p| {
+                let mut m = json!({"profile": p.name, "travelTimes": p.dur, "distances": p.dist});
+                if !p.errors.is_empty() {
+                    m["errorCodes"] = json!(p.errors);
+                }
+                m
+            })
             .collect();
         (problem, matrices)
     }
@@ -723,12 +732,13 @@ pub fn gen_problem(rng: &mut Rng, cfg: &GenCfg) -> SProblem {
         name: "car".into(),
         dur: gen_matrix(rng, n_locs, cfg.metric, cfg.asymmetric, 60),
         dist: vec![],
+        errors: vec![],
     }];
     profiles[0].dist = if rng.chance(1, 2) { profiles[0].dur.clone() } else { gen_matrix(rng, n_locs, cfg.metric, cfg.asymmetric, 80) };
     if cfg.two_profiles {
         let dur = gen_matrix(rng, n_locs, cfg.metric, cfg.asymmetric, 90);
         let dist = gen_matrix(rng, n_locs, cfg.metric, cfg.asymmetric, 70);
-        profiles.push(SProfile { name: "truck".into(), dur, dist });
+        profiles.push(SProfile { name: "truck".into(), dur, dist, errors: vec![] });
     }
 
     // keep scaled durations integral: a profile used with a fractional scale gets durations that are multiples of 4
